@@ -489,12 +489,13 @@ func runCase(t *testing.T, cfg config, ops []op, gen func(r *rig, step int) (op,
 // ---------- generator ----------
 
 type gen struct {
-	e       *vh.Env
-	cfg     config
-	nops    int
-	present map[int]bool
-	view    []map[int]bool // cids each peer has asked for and not cancelled (approximation used only to aim cancels)
+	e                              *vh.Env
+	cfg                            config
+	nops                           int
+	present                        map[int]bool
+	view                           []map[int]bool // cids each peer has asked for and not cancelled (approximation used only to aim cancels)
 	sawOverflow, sawFull, sawEvict bool
+	scen                           *scenario
 }
 
 func pick[T any](e *vh.Env, xs []T) T { return xs[e.Rng.Intn(len(xs))] }
@@ -555,8 +556,98 @@ func newGen(e *vh.Env, cfg config) *gen {
 // next picks the next call, looking at the engine's current ledger so that the
 // priorities in a ledger stay distinct (ties make the engine's choice depend on
 // Go map order) and cancels mostly hit something.
+// genScenarioConfig / scenario steps: a ledger filled to the limit in which a run of 2-4 wants adjacent in
+// priority order has no local block, followed by one message with more newcomers than there are such
+// wants (priorities above, between and below the existing ones). This is the shape in which handleOverflow's
+// two phases interact (indices of cancelled wants, replacement order, rejection).
+func genScenarioConfig(e *vh.Env) (config, *scenario) {
+	r := e.Rng
+	var c config
+	c.Limit = 3 + r.Intn(6)
+	sc := &scenario{}
+	sc.k = 2 + r.Intn(3)
+	if sc.k >= c.Limit {
+		sc.k = c.Limit - 1
+	}
+	sc.start = 0
+	if r.Intn(5) < 2 {
+		sc.start = r.Intn(c.Limit - sc.k + 1)
+	}
+	sc.extra = 1 + r.Intn(3)
+	c.Replace = pick(e, []int{0, 4, 1024})
+	c.SendDH = r.Intn(7) != 0
+	c.MaxCid = true
+	c.NP = 1 + r.Intn(2)
+	k := c.Limit + sc.k + sc.extra + 1
+	c.Sizes = make([]int, k)
+	for i := range c.Sizes {
+		c.Sizes[i] = 1 + r.Intn(8)
+	}
+	// cids 0..limit-1 fill the ledger; the ones at sorted positions start..start+k-1 have no block
+	for i := 0; i < k; i++ {
+		absent := i >= sc.start && i < sc.start+sc.k
+		if i >= c.Limit {
+			absent = r.Intn(6) == 0
+		}
+		if !absent {
+			c.BS0 = append(c.BS0, i)
+		}
+	}
+	c.Target = pick(e, []int{1, 16384})
+	return c, sc
+}
+
+type scenario struct {
+	k, start, extra int
+	phase           int
+}
+
+func (g *gen) scenarioStep(r *rig) (op, bool) {
+	rng := g.e.Rng
+	sc := g.scen
+	lim := g.cfg.Limit
+	switch sc.phase {
+	case 0: // fill the ledger: cid i gets the (i+1)-th lowest priority; entries in random order
+		sc.phase = 1
+		o := op{Kind: "msg", Peer: 0}
+		for _, i := range rng.Perm(lim) {
+			o.Ents = append(o.Ents, want{Cid: i, Prio: int32(10 * (i + 1)), Block: rng.Intn(4) != 0, Sdh: rng.Intn(2) == 0})
+		}
+		return o, true
+	case 1:
+		sc.phase = 2
+		if rng.Intn(3) == 0 {
+			return op{Kind: "drain"}, true
+		}
+		fallthrough
+	case 2: // the overflowing message
+		sc.phase = 3
+		o := op{Kind: "msg", Peer: 0}
+		used := map[int32]bool{}
+		n := sc.k + sc.extra
+		for j := 0; j < n; j++ {
+			var p int32
+			for {
+				p = int32(10*rng.Intn(lim+2) + 1 + rng.Intn(9)) // never a multiple of 10: no ties with the ledger
+				if !used[p] {
+					break
+				}
+			}
+			used[p] = true
+			o.Ents = append(o.Ents, want{Cid: lim + j, Prio: p, Block: rng.Intn(4) != 0, Sdh: rng.Intn(2) == 0})
+		}
+		return o, true
+	}
+	return op{}, false
+}
+
 func (g *gen) next(r *rig, step int) (op, bool) {
 	rng := g.e.Rng
+	if g.scen != nil && g.scen.phase < 3 {
+		if o, ok := g.scenarioStep(r); ok {
+			return o, true
+		}
+	}
 	if step > g.nops {
 		return op{}, false
 	}
@@ -688,12 +779,14 @@ func (g *gen) msg(r *rig) op {
 
 // ---------- corpus: boundary histories and the witnesses of the findings ----------
 
-func W(c int, prio int32, block, sdh bool) want { return want{Cid: c, Prio: prio, Block: block, Sdh: sdh} }
-func X(c int) want                              { return want{Cid: c, Block: true, Cancel: true} }
-func M(p int, ents ...want) op                   { return op{Kind: "msg", Peer: p, Ents: ents} }
-func F(p int, ents ...want) op                   { return op{Kind: "msg", Peer: p, Full: true, Ents: ents} }
-func A(c int) op                                 { return op{Kind: "add", Cid: c} }
-func R(c int) op                                 { return op{Kind: "rm", Cid: c} }
+func W(c int, prio int32, block, sdh bool) want {
+	return want{Cid: c, Prio: prio, Block: block, Sdh: sdh}
+}
+func X(c int) want             { return want{Cid: c, Block: true, Cancel: true} }
+func M(p int, ents ...want) op { return op{Kind: "msg", Peer: p, Ents: ents} }
+func F(p int, ents ...want) op { return op{Kind: "msg", Peer: p, Full: true, Ents: ents} }
+func A(c int) op               { return op{Kind: "add", Cid: c} }
+func R(c int) op               { return op{Kind: "rm", Cid: c} }
 
 var D = op{Kind: "drain"}
 
@@ -737,6 +830,13 @@ func corpus() []corpusCase {
 		{"cancel-denied", func() config { c := base(3, 0); c.Deny = [][2]int{{0, 0}}; return c }(), []op{M(0, W(0, 1, true, true)), M(0, X(0)), D}},
 		// C36-6: a want evicted by a newcomer of the same message, then cancelled
 		{"cancel-evicted-newcomer", base(2, 0, 1, 2), []op{M(0, W(0, 5, true, true)), M(0, W(1, 1, true, true), W(2, 9, true, true)), M(0, X(1)), D}},
+		// handleOverflow's second phase must skip EVERY want that the first phase cancelled: a(1) b(2) have no
+		// block, c(3) d(4) have; newcomers x(10) y(9) z(8): a, b and then c go, the want-list ends as {d,x,y,z}
+		{"overflow-skips-all-cancelled", base(4, 2, 3, 4, 5, 6), []op{M(0, W(0, 1, true, true), W(1, 2, true, true), W(2, 3, true, true), W(3, 4, true, true)),
+			M(0, W(4, 10, true, true), W(5, 9, true, true), W(6, 8, true, true)), D}},
+		// the same with the wants without blocks in the middle of the priority order and a newcomer that is rejected
+		{"overflow-skips-cancelled-middle", base(5, 0, 3, 4, 5, 6, 7), []op{M(0, W(0, 10, true, true), W(1, 20, true, false), W(2, 30, false, true), W(3, 40, true, true), W(4, 50, true, true)),
+			M(0, W(5, 45, true, true), W(6, 35, false, true), W(7, 15, true, true), W(8, 5, true, true)), D}},
 		// identity / oversize CIDs are ignored, also as cancels; limit 1
 		{"ignored-cids", base(1, 0), []op{M(0, W(100, 3, true, true), W(200, 2, true, true), W(0, 1, false, true)), M(0, X(100), X(200)), D}},
 		// want-have upgrade to want-block while queued; block removed before the envelope
@@ -784,8 +884,18 @@ func TestC36(t *testing.T) {
 	}
 	n := e.Pick(500, 8000)
 	for i := 0; i < n; i++ {
-		cfg := genConfig(e, i%25 == 24)
+		var cfg config
+		var sc *scenario
+		if i%5 == 3 {
+			cfg, sc = genScenarioConfig(e)
+		} else {
+			cfg = genConfig(e, i%25 == 24)
+		}
 		g := newGen(e, cfg)
+		g.scen = sc
+		if sc != nil {
+			st.Count("scenario.full-ledger-with-absent-run")
+		}
 		out := runCase(t, cfg, nil, g.next)
 		ops := out.replay["ops"].([]op)
 		cs.Add(out.term, out.replay)
